@@ -326,6 +326,10 @@ func specVarNamePattern() string { return `^[A-Za-z_]\w*(\[\d+\])*$` }
 // specEllipsisPattern: "..." optionally followed by [n].
 func specEllipsisPattern() string { return `^\.{3}(\[\d+\])?$` }
 
+// Assumed facts about the regular expressions (the regexp engine itself is not modelled).
+//@ axiom forall s string :: re_match(specVarNamePattern(), s) ==> len(s) >= 1 && (s[0] == '_' || ('A' <= s[0] && s[0] <= 'Z') || ('a' <= s[0] && s[0] <= 'z'))
+//@ axiom forall s string :: re_match(specEllipsisPattern(), s) ==> len(s) >= 3 && s[0] == '.' && s[1] == '.' && s[2] == '.'
+
 func specIsIntW(w int) bool { return w == 1 || w == 2 || w == 4 || w == 8 }
 
 func specIntType(w int) string {
@@ -921,3 +925,116 @@ func specBoolByte(b bool) int {
 //@     invariant forall i int :: 0 <= i && i <= rangeindex ==> h <= list_off(me, i) && list_off(me, i) + enc_len(node.values[i]) <= len(result)
 //@     invariant result[0] == specFormatCode("list")*4 + specNLen(n)
 //@     invariant forall k int :: 0 <= k && k < h-1 ==> result[1+k] == specLenByte(n, h-1, k)
+
+// ---------------------------------------------------------------------------------------------
+// FillVariables: pure substitution (C09)
+
+//@ func (*IntNode).FillVariables
+//@   property C09 C11 C12
+//@   maypanic
+//@   let r = cast(result, *IntNode)
+//@   let n = len(node.values)
+//@   ensures !(exists s string :: has(node.variables, s) && has(values, s)) ==> result == box(node, *IntNode)
+//@   ensures (exists s string :: has(node.variables, s) && has(values, s)) ==> typeis(result, *IntNode) && fresh(result) && r.byteSize == node.byteSize && len(r.values) == n
+//@   ensures (exists s string :: has(node.variables, s) && has(values, s)) ==> forall s string :: has(node.variables, s) && has(values, s) && isint(values[s]) ==> r.values[node.variables[s]] == ival(values[s])
+//@   ensures (exists s string :: has(node.variables, s) && has(values, s)) ==> forall s string :: has(node.variables, s) && !has(values, s) ==> has(r.variables, s) && r.variables[s] == node.variables[s] && r.values[node.variables[s]] == 0
+//@   ensures (exists s string :: has(node.variables, s) && has(values, s)) ==> forall p int :: 0 <= p && p < n && (forall s string :: has(node.variables, s) ==> node.variables[s] != p) ==> r.values[p] == node.values[p]
+//@   loop 1
+//@     invariant 0 <= rangeindex+1 && rangeindex+1 <= n && len(nodeValues) == rangeindex+1 && fresh(nodeValues)
+//@     invariant forall k int :: 0 <= k && k <= rangeindex ==> typeis(nodeValues[k], int64) && ival(nodeValues[k]) == node.values[k]
+//@   loop 2
+//@     invariant len(nodeValues) == n && fresh(nodeValues)
+//@     invariant !createNew ==> forall s string :: has(itervisited, s) ==> !has(values, s)
+//@     invariant createNew ==> exists s string :: has(node.variables, s) && has(values, s)
+//@     invariant forall s string :: has(itervisited, s) ==> has(node.variables, s)
+//@     invariant forall s string :: has(itervisited, s) && has(values, s) ==> nodeValues[node.variables[s]] == values[s]
+//@     invariant forall s string :: has(itervisited, s) && !has(values, s) ==> typeis(nodeValues[node.variables[s]], string) && sval(nodeValues[node.variables[s]]) == s
+//@     invariant forall p int :: 0 <= p && p < n && (forall s string :: has(itervisited, s) ==> node.variables[s] != p) ==> typeis(nodeValues[p], int64) && ival(nodeValues[p]) == node.values[p]
+
+//@ func (*UintNode).FillVariables
+//@   property C09 C11 C12
+//@   maypanic
+//@   let r = cast(result, *UintNode)
+//@   let n = len(node.values)
+//@   ensures !(exists s string :: has(node.variables, s) && has(values, s)) ==> result == box(node, *UintNode)
+//@   ensures (exists s string :: has(node.variables, s) && has(values, s)) ==> typeis(result, *UintNode) && fresh(result) && r.byteSize == node.byteSize && len(r.values) == n
+//@   ensures (exists s string :: has(node.variables, s) && has(values, s)) ==> forall s string :: has(node.variables, s) && has(values, s) && isint(values[s]) ==> r.values[node.variables[s]] == ival(values[s])
+//@   ensures (exists s string :: has(node.variables, s) && has(values, s)) ==> forall s string :: has(node.variables, s) && !has(values, s) ==> has(r.variables, s) && r.variables[s] == node.variables[s] && r.values[node.variables[s]] == 0
+//@   ensures (exists s string :: has(node.variables, s) && has(values, s)) ==> forall p int :: 0 <= p && p < n && (forall s string :: has(node.variables, s) ==> node.variables[s] != p) ==> r.values[p] == node.values[p]
+//@   loop 1
+//@     invariant 0 <= rangeindex+1 && rangeindex+1 <= n && len(nodeValues) == rangeindex+1 && fresh(nodeValues)
+//@     invariant forall k int :: 0 <= k && k <= rangeindex ==> typeis(nodeValues[k], uint64) && ival(nodeValues[k]) == node.values[k]
+//@   loop 2
+//@     invariant len(nodeValues) == n && fresh(nodeValues)
+//@     invariant !createNew ==> forall s string :: has(itervisited, s) ==> !has(values, s)
+//@     invariant createNew ==> exists s string :: has(node.variables, s) && has(values, s)
+//@     invariant forall s string :: has(itervisited, s) ==> has(node.variables, s)
+//@     invariant forall s string :: has(itervisited, s) && has(values, s) ==> nodeValues[node.variables[s]] == values[s]
+//@     invariant forall s string :: has(itervisited, s) && !has(values, s) ==> typeis(nodeValues[node.variables[s]], string) && sval(nodeValues[node.variables[s]]) == s
+//@     invariant forall p int :: 0 <= p && p < n && (forall s string :: has(itervisited, s) ==> node.variables[s] != p) ==> typeis(nodeValues[p], uint64) && ival(nodeValues[p]) == node.values[p]
+
+//@ func (*FloatNode).FillVariables
+//@   property C09 C11 C12
+//@   maypanic
+//@   let r = cast(result, *FloatNode)
+//@   let n = len(node.values)
+//@   ensures !(exists s string :: has(node.variables, s) && has(values, s)) ==> result == box(node, *FloatNode)
+//@   ensures (exists s string :: has(node.variables, s) && has(values, s)) ==> typeis(result, *FloatNode) && fresh(result) && r.byteSize == node.byteSize && len(r.values) == n
+//@   ensures (exists s string :: has(node.variables, s) && has(values, s)) ==> forall s string :: has(node.variables, s) && has(values, s) && isfloat(values[s]) ==> r.values[node.variables[s]] == fval(values[s])
+//@   ensures (exists s string :: has(node.variables, s) && has(values, s)) ==> forall s string :: has(node.variables, s) && !has(values, s) ==> has(r.variables, s) && r.variables[s] == node.variables[s] && r.values[node.variables[s]] == 0
+//@   ensures (exists s string :: has(node.variables, s) && has(values, s)) ==> forall p int :: 0 <= p && p < n && (forall s string :: has(node.variables, s) ==> node.variables[s] != p) ==> r.values[p] == node.values[p]
+//@   loop 1
+//@     invariant 0 <= rangeindex+1 && rangeindex+1 <= n && len(nodeValues) == rangeindex+1 && fresh(nodeValues)
+//@     invariant forall k int :: 0 <= k && k <= rangeindex ==> typeis(nodeValues[k], float64) && fval(nodeValues[k]) == node.values[k]
+//@   loop 2
+//@     invariant len(nodeValues) == n && fresh(nodeValues)
+//@     invariant !createNew ==> forall s string :: has(itervisited, s) ==> !has(values, s)
+//@     invariant createNew ==> exists s string :: has(node.variables, s) && has(values, s)
+//@     invariant forall s string :: has(itervisited, s) ==> has(node.variables, s)
+//@     invariant forall s string :: has(itervisited, s) && has(values, s) ==> nodeValues[node.variables[s]] == values[s]
+//@     invariant forall s string :: has(itervisited, s) && !has(values, s) ==> typeis(nodeValues[node.variables[s]], string) && sval(nodeValues[node.variables[s]]) == s
+//@     invariant forall p int :: 0 <= p && p < n && (forall s string :: has(itervisited, s) ==> node.variables[s] != p) ==> typeis(nodeValues[p], float64) && fval(nodeValues[p]) == node.values[p]
+
+//@ func (*BinaryNode).FillVariables
+//@   property C09 C11 C12
+//@   maypanic
+//@   let r = cast(result, *BinaryNode)
+//@   let n = len(node.values)
+//@   ensures !(exists s string :: has(node.variables, s) && has(values, s)) ==> result == box(node, *BinaryNode)
+//@   ensures (exists s string :: has(node.variables, s) && has(values, s)) ==> typeis(result, *BinaryNode) && fresh(result) && len(r.values) == n
+//@   ensures (exists s string :: has(node.variables, s) && has(values, s)) ==> forall s string :: has(node.variables, s) && has(values, s) && typeis(values[s], int) ==> r.values[node.variables[s]] == ival(values[s])
+//@   ensures (exists s string :: has(node.variables, s) && has(values, s)) ==> forall s string :: has(node.variables, s) && !has(values, s) ==> has(r.variables, s) && r.variables[s] == node.variables[s] && r.values[node.variables[s]] == 0
+//@   ensures (exists s string :: has(node.variables, s) && has(values, s)) ==> forall p int :: 0 <= p && p < n && (forall s string :: has(node.variables, s) ==> node.variables[s] != p) ==> r.values[p] == node.values[p]
+//@   loop 1
+//@     invariant 0 <= rangeindex+1 && rangeindex+1 <= n && len(nodeValues) == rangeindex+1 && fresh(nodeValues)
+//@     invariant forall k int :: 0 <= k && k <= rangeindex ==> typeis(nodeValues[k], int) && ival(nodeValues[k]) == node.values[k]
+//@   loop 2
+//@     invariant len(nodeValues) == n && fresh(nodeValues)
+//@     invariant !createNew ==> forall s string :: has(itervisited, s) ==> !has(values, s)
+//@     invariant createNew ==> exists s string :: has(node.variables, s) && has(values, s)
+//@     invariant forall s string :: has(itervisited, s) ==> has(node.variables, s)
+//@     invariant forall s string :: has(itervisited, s) && has(values, s) ==> nodeValues[node.variables[s]] == values[s]
+//@     invariant forall s string :: has(itervisited, s) && !has(values, s) ==> typeis(nodeValues[node.variables[s]], string) && sval(nodeValues[node.variables[s]]) == s
+//@     invariant forall p int :: 0 <= p && p < n && (forall s string :: has(itervisited, s) ==> node.variables[s] != p) ==> typeis(nodeValues[p], int) && ival(nodeValues[p]) == node.values[p]
+
+//@ func (*BooleanNode).FillVariables
+//@   property C09 C11 C12
+//@   maypanic
+//@   let r = cast(result, *BooleanNode)
+//@   let n = len(node.values)
+//@   ensures !(exists s string :: has(node.variables, s) && has(values, s)) ==> result == box(node, *BooleanNode)
+//@   ensures (exists s string :: has(node.variables, s) && has(values, s)) ==> typeis(result, *BooleanNode) && fresh(result) && len(r.values) == n
+//@   ensures (exists s string :: has(node.variables, s) && has(values, s)) ==> forall s string :: has(node.variables, s) && has(values, s) && typeis(values[s], bool) ==> r.values[node.variables[s]] == bval(values[s])
+//@   ensures (exists s string :: has(node.variables, s) && has(values, s)) ==> forall s string :: has(node.variables, s) && !has(values, s) ==> has(r.variables, s) && r.variables[s] == node.variables[s] && !r.values[node.variables[s]]
+//@   ensures (exists s string :: has(node.variables, s) && has(values, s)) ==> forall p int :: 0 <= p && p < n && (forall s string :: has(node.variables, s) ==> node.variables[s] != p) ==> r.values[p] == node.values[p]
+//@   loop 1
+//@     invariant 0 <= rangeindex+1 && rangeindex+1 <= n && len(nodeValues) == rangeindex+1 && fresh(nodeValues)
+//@     invariant forall k int :: 0 <= k && k <= rangeindex ==> typeis(nodeValues[k], bool) && bval(nodeValues[k]) == node.values[k]
+//@   loop 2
+//@     invariant len(nodeValues) == n && fresh(nodeValues)
+//@     invariant !createNew ==> forall s string :: has(itervisited, s) ==> !has(values, s)
+//@     invariant createNew ==> exists s string :: has(node.variables, s) && has(values, s)
+//@     invariant forall s string :: has(itervisited, s) ==> has(node.variables, s)
+//@     invariant forall s string :: has(itervisited, s) && has(values, s) ==> nodeValues[node.variables[s]] == values[s]
+//@     invariant forall s string :: has(itervisited, s) && !has(values, s) ==> typeis(nodeValues[node.variables[s]], string) && sval(nodeValues[node.variables[s]]) == s
+//@     invariant forall p int :: 0 <= p && p < n && (forall s string :: has(itervisited, s) ==> node.variables[s] != p) ==> typeis(nodeValues[p], bool) && bval(nodeValues[p]) == node.values[p]
